@@ -1682,6 +1682,9 @@ func genOddities(t *rapid.T, w *World, args []string, add addFn) {
 	var names []string
 	for i := 0; i < n; i++ {
 		o := oddities[rapid.IntRange(0, len(oddities)-1).Draw(t, "odd")]
+		if o.name == "ref-file-yaml-alias-bomb" {
+			o = oddities[0] // known finding KF-C18-2: kept in view by one battery run, not re-found in combinations
+		}
 		names = append(names, o.name)
 		pos := rapid.SampledFrom([]string{"prop", "prop", "def", "item", "nested", "required-prop", "def-ref", "addl", "allof-branch", "anyof-branch"}).Draw(t, "oddpos")
 		pname := fmt.Sprintf("odd%d", i)
